@@ -1,0 +1,56 @@
+//go:build verif
+
+package normalize
+
+// Contracts for the verification harness under /verif (comment-only file).
+//
+// C13: the hash action's built-in tokenizer scans the bytes of an event field
+// for bracketed and quoted runs.  Checked for every byte string: no index or
+// slice bound is exceeded, every token lies inside the data, tokens do not go
+// backwards (begin is at or after the previous token's end), and the caller's
+// copy loop therefore never slices out of range.
+//
+// State invariant while a pattern is open (curPattern != 0): the run started at
+// startPattern, at or after the scan start and before the cursor, and the
+// nesting / quote counter is at least 1.
+
+//@ func hasPattern
+//@   pure
+
+//@ func (*tokenizer).processOpenBracket
+//@   requires pattern != 0
+//@   modifies t.curPattern, t.counter, t.startPattern
+//@   ensures old(t.curPattern) == 0 ==> t.curPattern == pattern && t.counter == 1 && t.startPattern == pos
+//@   ensures old(t.curPattern) != 0 ==> t.curPattern == old(t.curPattern) && t.startPattern == old(t.startPattern) && t.counter >= old(t.counter)
+
+//@ func (*tokenizer).processCloseBracket
+//@   modifies t.counter, t.pos
+//@   ensures t.curPattern == old(t.curPattern) && t.startPattern == old(t.startPattern)
+//@   ensures result1 ==> t.pos == pos + 1 && result0.begin == t.startPattern && result0.end == t.pos && t.curPattern == pattern
+//@   ensures !result1 ==> t.pos == old(t.pos) && (old(t.counter) >= 1 ==> t.counter >= 1)
+
+//@ func (*tokenizer).processQuotes
+//@   requires pattern != 0
+//@   requires 0 <= pos && pos < len(t.data)
+//@   requires t.curPattern != 0 ==> t.counter >= 1
+//@   modifies t.curPattern, t.counter, t.startPattern, t.pos
+//@   ensures !result2 ==> result1 >= 0 && pos + result1 < len(t.data) && t.pos == old(t.pos)
+//@   ensures !result2 && old(t.curPattern) == 0 ==> t.curPattern == pattern && t.startPattern == pos && t.counter >= 1
+//@   ensures !result2 && old(t.curPattern) != 0 ==> t.curPattern == old(t.curPattern) && t.startPattern == old(t.startPattern) && t.counter == old(t.counter)
+//@   ensures result2 ==> t.pos > pos && t.pos <= len(t.data) && result0.begin == old(t.startPattern) && result0.end == t.pos && old(t.curPattern) == pattern
+//@   loop 1 invariant pos + 1 <= i && i <= len(t.data) && t.counter == i - pos && t.curPattern == pattern && t.startPattern == pos && t.pos == old(t.pos)
+//@   loop 2 invariant pos + 1 <= i#2 && i#2 <= len(t.data) && tmp == t.counter - (i#2 - pos)
+//@   loop 2 invariant t.counter == old(t.counter) && t.curPattern == old(t.curPattern) && t.startPattern == old(t.startPattern) && t.pos == old(t.pos)
+
+//@ func (*tokenizer).nextToken
+//@   requires 0 <= t.pos && t.pos <= len(t.data)
+//@   modifies t.curPattern, t.counter, t.startPattern, t.pos
+//@   ensures !result1 ==> old(t.pos) <= result0.begin && result0.begin <= result0.end && result0.end == t.pos && t.pos <= len(t.data)
+//@   ensures result1 ==> t.pos == old(t.pos)
+//@   loop 1 invariant old(t.pos) <= i && i <= len(t.data) && t.pos == old(t.pos)
+//@   loop 1 invariant t.curPattern != 0 ==> old(t.pos) <= t.startPattern && t.startPattern < i && t.counter >= 1
+
+//@ func (*tokenNormalizer).normalizeByTokenizer
+//@   requires tok != nil && 0 <= tok.pos && tok.pos <= len(tok.data)
+//@   loop 1 invariant 0 <= prevEnd && prevEnd <= tok.pos && tok.pos <= len(tok.data)
+//@   loop 1 invariant !end ==> prevEnd <= t.begin && t.begin <= t.end && t.end == tok.pos
